@@ -21,7 +21,7 @@
                      name / key now, every cached key is in use, and a record cache marked `full` holds every collection.
      QColls / QDataGlob : pattern and `...` lookups; they answer from the record cache alone once it is `full`. *)
 From Coq Require Import ZArith NArith List Bool Lia.
-From V Require Import Model.Cache Proofs.CacheProofs Proofs.CacheProofsB Proofs.CacheProofsC.
+From V Require Import Model.Cache Model.CacheButler Proofs.CacheProofs Proofs.CacheProofsB Proofs.CacheProofsC Proofs.CacheProofsD Gen.CacheExpireGen Proofs.CacheProofsE.
 Import ListNotations.
 Open Scope Z_scope.
 
@@ -243,3 +243,125 @@ Example own_write_example :
           RemoveColl 0; SetChain 4 []; RemoveColl 0; Register 0 false; QData 1 0; QSummary 4])
   = [[]; []; []; []; []; []; [12]; [12]; [9999]; []; []; []; []; []].
 Proof. vm_compute. reflexivity. Qed.
+
+(* ------------------------------------------------------------------------------------------------------------------ *)
+(* PART 3, the Butler-level path through the file cache (Model/CacheButler.v): Butler.put / get / pruneDatasets on a
+   FileDatastore with a non-local root, two clients (configurations ca, cb) sharing one cache directory, single-file and
+   disassembled (multi-file) datasets, cache files deleted / the directory emptied by other processes.
+     bstep f ca cb s op : (state, answer);  brun : a history;  cfg_off : the file cache disabled
+     respects F op      : a put writes, under the cache name k, the content F k (one name, one content: datasets are
+                          immutable) and component indices are < 4
+     BInv F s           : every file in the cache directory holds the content F assigns to its name; every recorded file
+                          is in the remote store with the recorded size; a record's files carry their dataset's id *)
+Open Scope Z_scope.
+
+(* never content for a dataset that has been removed: from ANY state, whoever removes it, whatever happens afterwards
+   (short of putting the dataset again), with any cache configuration and any cache content *)
+Theorem butler_removed_no_content : forall f ca cb s who who' d h, Forall (not_put d) h ->
+  snd (bstep f ca cb (fst (brun f ca cb (fst (bstep f ca cb s (BRemove who d))) h)) (BGet who' d)) = BNotFound.
+Proof. exact removed_no_content_p. Qed.
+Print Assumptions butler_removed_no_content.
+
+(* with immutable contents, EVERY history of puts, gets, removals by both clients, ticks and outside deletions gives, with
+   ANY two cache configurations, exactly the answers of the same clients with the file cache disabled *)
+Theorem butler_cache_transparent : forall f ca cb F h, Forall (respects F) h ->
+  snd (brun f ca cb empty_b h) = snd (brun f cfg_off cfg_off empty_b h).
+Proof.
+  intros. apply (butler_transparent_p f ca cb f cfg_off cfg_off F h empty_b empty_b); auto using BInv_empty.
+Qed.
+Print Assumptions butler_cache_transparent.
+
+(* ... and every file in the cache directory always holds the current content of its name; a get answers with the
+   recorded files (so a client reads its own completed put, whichever files the cache still holds) *)
+Theorem butler_cache_files_current : forall f ca cb F h, Forall (respects F) h ->
+  BInv F (fst (brun f ca cb empty_b h)).
+Proof. intros. apply BInv_run; auto using BInv_empty. Qed.
+Print Assumptions butler_cache_files_current.
+
+Theorem butler_get_answers_records : forall f ca cb F s who d fs, BInv F s -> lookup d (b_recs s) = Some fs ->
+  snd (bstep f ca cb s (BGet who d)) = BContent fs.
+Proof. intros. rewrite (answer_spec f ca cb F s (BGet who d) H). cbn [spec_ans]. rewrite H0. reflexivity. Qed.
+Print Assumptions butler_get_answers_records.
+
+(* code as it is, WITHOUT the immutability assumption: client A puts dataset 1 (content 15) and caches it; client B, whose
+   registry never saw that file, removes the dataset (`remove_from_cache` only removes what the manager knows: the file
+   stays); the dataset is put again under the same id with other content (18): `move_to_cache` scans, finds the name
+   registered and keeps the OLD file.  Every later get finds the old file; here the sizes differ, so the read fails its
+   size check (FileIntegrityError) while the same clients without the cache read the new content.  With contents of
+   equal size the old content is returned silently (reproduced on the implementation; known finding F-C17-reput-stale) *)
+Definition reput_history : list bop := [BPut false 1%N [(0%N, 15)]; BRemove true 1%N; BPut true 1%N [(0%N, 18)]; BGet false 1%N].
+Theorem butler_reput_other_content_refuted :
+  snd (brun true (mkCfg MDatasets 4) (mkCfg MDatasets 4) empty_b reput_history) = [BOk; BOk; BOk; BIntegrity]
+  /\ snd (brun true cfg_off cfg_off empty_b reput_history) = [BOk; BOk; BOk; BContent [(4%N, 18)]]
+  /\ map (fun e => (e_key e, e_size e)) (w_disk (b_w (fst (brun true (mkCfg MDatasets 4) (mkCfg MDatasets 4) empty_b reput_history)))) = [(4%N, 15)].
+Proof. vm_compute. repeat split; reflexivity. Qed.
+Print Assumptions butler_reput_other_content_refuted.
+
+(* the same history with the removal done by the client that cached the file is answered as without the cache *)
+Theorem butler_reput_by_owner_ok :
+  snd (brun true (mkCfg MDatasets 4) (mkCfg MDatasets 4) empty_b
+         [BPut false 1%N [(0%N, 15)]; BRemove false 1%N; BPut true 1%N [(0%N, 18)]; BGet false 1%N])
+  = [BOk; BOk; BOk; BContent [(4%N, 18)]].
+Proof. vm_compute. reflexivity. Qed.
+Print Assumptions butler_reput_by_owner_ok.
+
+(* the expiry bounds at the Butler level: right after a put by a client in files / datasets mode (the last manager call
+   of a put is a move_to_cache), whatever the other client and other processes did before *)
+Theorem butler_put_bound_files : forall f ca cb thr s (who : bool) d files c sz, 0 <= thr ->
+  (if who then cb else ca) = mkCfg MFiles thr -> WInv (b_w s) -> Forall (fun p => 0 <= snd p) files ->
+  lookup d (b_recs s) = None ->
+  Z.of_nat (length (w_disk (b_w (fst (bstep f ca cb s (BPut who d (files ++ [(c, sz)]))))))) <= thr + 1.
+Proof. exact put_bound_files_p. Qed.
+Print Assumptions butler_put_bound_files.
+
+Theorem butler_put_bound_datasets : forall f ca cb thr s (who : bool) d files c sz, 0 <= thr ->
+  (if who then cb else ca) = mkCfg MDatasets thr -> lookup d (b_recs s) = None ->
+  exists allowed, Z.of_nat (length allowed) <= thr + 1 /\
+    forall e, In e (entries (let w := b_w (fst (bstep f ca cb s (BPut who d (files ++ [(c, sz)])))) in if who then w_b w else w_a w)) ->
+              In (e_ref e) allowed.
+Proof. exact put_bound_datasets_p. Qed.
+Print Assumptions butler_put_bound_datasets.
+
+(* non-vacuity: a history with a three-file dataset, an eviction, a removal by the other client, a get of the removed
+   dataset and a second put of the same content respects a content function, and its answers are as stated *)
+Example butler_example :
+  let F := fun k : N => if N.eqb k 4 then 15 else if N.eqb k 9 then 17 else if N.eqb k 10 then 19 else 21 in
+  let h := [BPut false 1%N [(0%N, 15)]; BPut false 2%N [(1%N, 17); (2%N, 19); (3%N, 21)]; BGet true 2%N; BGet true 1%N;
+            BRemove true 2%N; BGet false 2%N; BPut false 2%N [(1%N, 17); (2%N, 19); (3%N, 21)]; BWipe; BGet true 2%N] in
+  Forall (respects F) h
+  /\ snd (brun true (mkCfg MFiles 2) (mkCfg MDatasets 1) empty_b h)
+     = [BOk; BOk; BContent [(9%N, 17); (10%N, 19); (11%N, 21)]; BContent [(4%N, 15)]; BOk; BNotFound; BOk; BOk;
+        BContent [(9%N, 17); (10%N, 19); (11%N, 21)]].
+Proof.
+  split; [|vm_compute; reflexivity].
+  repeat (apply Forall_cons;
+    [cbn [respects]; first [exact I | intros c sz Hi; simpl in Hi;
+       repeat (destruct Hi as [Hi|Hi]; [inversion Hi; subst; split; [reflexivity | vm_compute; reflexivity]|]); destruct Hi] |]).
+  apply Forall_nil.
+Qed.
+
+(* ------------------------------------------------------------------------------------------------------------------ *)
+(* PART 4, tie T: Gen/CacheExpireGen.v is regenerated on every run from the source of `_expire_cache` (the threshold
+   tests of the four modes, that the scan comes before them and the no-mode return before the scan); `gen_expire` is the
+   expiry assembled from the generated tests.  It is the hand model's expiry, so every theorem above about `expire true` /
+   `after_move true` is a theorem about the tests as written in the source; the bounds are restated over them. *)
+Theorem expire_thresholds_as_coded : forall c now dm, gen_expire c now dm = expire true c now dm.
+Proof. exact gen_expire_eq. Qed.
+Print Assumptions expire_thresholds_as_coded.
+
+Theorem bounds_over_generated_tests : forall thr now k size disk m, 0 <= thr ->
+  (DInv disk ->
+     Z.of_nat (length (entries (snd (gen_after_move (mkCfg MFiles thr) now k size (disk, m))))) <= thr + 1
+     /\ Z.of_nat (length (fst (gen_after_move (mkCfg MFiles thr) now k size (disk, m)))) <= thr + 1)
+  /\ (exists allowed, Z.of_nat (length allowed) <= thr + 1 /\
+        forall e, In e (entries (snd (gen_after_move (mkCfg MDatasets thr) now k size (disk, m)))) -> In (e_ref e) allowed)
+  /\ (0 <= size -> DInv disk -> MInv m -> msize (snd (gen_after_move (mkCfg MSize thr) now k size (disk, m))) <= thr + size)
+  /\ (forall e, In e (entries (snd (gen_after_move (mkCfg MAge thr) now k size (disk, m)))) -> now - e_ctime e <= thr).
+Proof.
+  intros. rewrite !gen_after_move_eq. split; [|split; [|split]].
+  - intros. now apply move_files_bound.
+  - now apply move_datasets_bound.
+  - intros. now apply move_size_bound.
+  - intros. now apply (move_age_bound thr now k size disk m).
+Qed.
+Print Assumptions bounds_over_generated_tests.
